@@ -53,12 +53,13 @@ Section SigningProofs.
   Lemma sign_input_valid keys tx i c ss :
     sign_input T v5 keys tx i c = Some ss -> input_valid tx i c ss = true.
   Proof.
-    unfold sign_input, input_valid. destruct (c_spend c) as [k|m n] eqn:Sp.
+    unfold sign_input, input_valid. destruct (c_spend c) as [k|m n|] eqn:Sp.
     - intros H. inversion H. rewrite Z.eqb_refl, verify_own. reflexivity.
     - destruct (len (signing_keys keys m n) =? m) eqn:L; [|discriminate].
       intros H. inversion H. rewrite !Z.eqb_refl. cbn [andb].
       unfold len in *. rewrite map_length, L. cbn [andb].
       unfold signing_keys. apply checkmultisig_filter.
+    - discriminate.
   Qed.
 
   (** every signature inside a scriptSig is over [msg] *)
@@ -71,11 +72,12 @@ Section SigningProofs.
   Lemma sign_input_over keys tx i c ss :
     sign_input T v5 keys tx i c = Some ss -> sigs_over ss (msg_for T v5 tx i c).
   Proof.
-    unfold sign_input. destruct (c_spend c) as [k|m n] eqn:Sp.
+    unfold sign_input. destruct (c_spend c) as [k|m n|] eqn:Sp.
     - intros H. inversion H. reflexivity.
     - destruct (len (signing_keys keys m n) =? m); [|discriminate].
       intros H. inversion H. cbn [sigs_over]. apply Forall_forall. intros s Hs.
       apply in_map_iff in Hs. destruct Hs as (k & <- & _). reflexivity.
+    - discriminate.
   Qed.
 
   Lemma sign_from_index keys tx : forall cs i0 l,
@@ -188,7 +190,7 @@ Lemma sign_input_sels v5 keys i c ss :
   input_sels_okb v5 (Z.of_nat i) c (sels_of_script_sig ss) = true.
 Proof.
   unfold sign_input, input_sels_okb. destruct c as [v sp]. cbn [c_spend c_value].
-  destruct sp as [k|m n].
+  destruct sp as [k|m n|]; [| |discriminate].
   - intros H. inversion H. cbn [sels_of_script_sig sel_of_sig forallb].
     unfold sel_okb, msg_for, code_of, coin_script.
     cbn [c_spend c_value s_index s_value s_type s_code s_spk s_key h_index h_value h_type h_code h_spk].
@@ -218,22 +220,24 @@ Proof.
     replace (Z.of_nat i0 + 1) with (Z.of_nat (S i0)) by lia. now apply IH.
 Qed.
 
-(** the signing step succeeds exactly when every multisig input has enough registered keys *)
+(** the signing step succeeds when every input is of a signable kind *)
 Lemma sign_from_total v5 keys : forall ops pos i0,
-  forallb (p2sh_signable keys) (tsh_mn ops) = true ->
+  forallb (signable_kind keys) (tkinds ops) = true ->
   exists l, sign_from unit v5 keys tt i0 (coins_from pos ops) = Some l.
 Proof.
   induction ops as [|o ops IH]; intros pos i0 H; [exists []; reflexivity|].
   destruct o; cbn [coins_from]; try (apply IH; exact H).
-  - destruct (IH (pos + 1) (S i0) H) as [l Hl]. cbn [sign_from]. unfold sign_input at 1. cbn [c_spend].
-    rewrite Hl. eauto.
-  - unfold tsh_mn in H. cbn [flat_map tsh_of app forallb] in H. apply andb_prop in H. destruct H as [H1 H2].
+  - unfold tkinds in H. cbn [flat_map tk_of app forallb] in H. apply andb_prop in H. destruct H as [_ H2].
     destruct (IH (pos + 1) (S i0) H2) as [l Hl]. cbn [sign_from]. unfold sign_input at 1. cbn [c_spend].
-    unfold p2sh_signable in H1. cbn [fst snd] in H1. rewrite H1, Hl. eauto.
+    rewrite Hl. eauto.
+  - unfold tkinds in H. cbn [flat_map tk_of app forallb] in H. apply andb_prop in H. destruct H as [H1 H2].
+    destruct (IH (pos + 1) (S i0) H2) as [l Hl]. cbn [sign_from]. unfold sign_input at 1. cbn [c_spend].
+    cbn [signable_kind] in H1. unfold p2sh_signable in H1. cbn [fst snd] in H1. rewrite H1, Hl. eauto.
+  - unfold tkinds in H. cbn [flat_map tk_of app forallb signable_kind] in H. discriminate.
 Qed.
 
 Lemma model_sels_ok keys v ops :
-  forallb (p2sh_signable keys) (tsh_mn ops) = true ->
+  forallb (signable_kind keys) (tkinds ops) = true ->
   sels_okb_from (is_v5 v) 0 (coins_of ops) (model_sels keys v ops) = true.
 Proof.
   intros H. unfold model_sels, apply_signatures, coins_of.
